@@ -93,6 +93,9 @@ func (p *parser) parseModule(data string, parent *meta.Module, featureSet meta.F
 
 func (p *parser) loadAndParseModule(parent *meta.Module, yangfile string, rev string, featureSet meta.FeatureSet, loader meta.Loader) (*meta.Module, error) {
 	// TODO: Use rev
+	if p.source == nil {
+		return nil, fmt.Errorf("%w. no source to load %s from", fc.NotFoundError, yangfile)
+	}
 	res, err := p.source(yangfile, ".yang")
 	if err != nil {
 		return nil, err
